@@ -66,6 +66,7 @@ def judge(W, run, trace):
     viol = []
     models = {}
     fired = {}
+    notes = {}
     msgs_ok = set()
 
     def bump(k):
@@ -282,8 +283,13 @@ def judge(W, run, trace):
                 v(i, "sweep", "exception:" + out[1], {"bad": []}, out, role)
             elif out.get("bad"):
                 v(i, "sweep", "identity", {"bad": []}, out, role)
+            else:
+                notes["sweep_checks"] = notes.get("sweep_checks", 0) + out.get("checked", 0)
+                if ev[2] is None:
+                    notes["full_table_sweeps"] = notes.get("full_table_sweeps", 0) + 1
             continue
     trace["fired"] = fired
+    trace["notes"] = notes
     return viol
 
 
